@@ -38,6 +38,17 @@ def run(prog, rep, tier):
     table = {e['key']: e for e in json.load(open(TBL))['sites']}
     seen = set()
     n = 0
+    # containers of the reviewed sites: fields by name, named locals by (function, name)
+    field_class, local_class, field_fns = {}, {}, {}
+    for k, e in table.items():
+        parts = k.split('|')
+        if len(parts) >= 4:
+            tg = parts[3].rsplit('#', 1)[0]
+            if '.' in tg:
+                field_class.setdefault(tg.rsplit('.', 1)[-1], e)
+                field_fns.setdefault(tg.rsplit('.', 1)[-1], set()).add(parts[1])
+            elif tg and tg != 'tmp':
+                local_class.setdefault((parts[1], tg), e)
     for body in sorted(scope, key=lambda b: b.nkey):
         cnt = collections.Counter()
         for b in body.calls():
@@ -81,6 +92,16 @@ def run(prog, rep, tier):
                 iv = census.interval(body, census._mk_copy((t.dest[0], ()))) if t.dest is not None else None
                 if 'std::io::Take<' in t.callee.get('self_ty', '') and iv is not None and iv[1] <= BOUND_CAP:
                     auto = 'read_to_end through take() limited to %d bytes' % iv[1]
+            elif kind == 'dup_bytes' and t.args and t.args[0].place is not None:
+                # copy of `slice[..n]` / `slice[a..b]` with a bounded end
+                so = origins(body, [t.args[0].place[0]])
+                ix = [body.blocks[c] for c in so.calls if body.blocks[c].term.cmethod in ('index', 'index_mut') and len(body.blocks[c].term.args) >= 2]
+                if len(ix) == 1 and b.idx not in body.loop_blocks():
+                    e = expr_of(body, ix[0].term.args[1])
+                    if e[0] == 'agg' and e[3].j.get('adt', '').rsplit('::', 1)[-1] in ('RangeTo', 'Range') and e[3].ops:
+                        iv = census.refined_interval(prog, body, ix[0].idx, e[3].ops[-1])
+                        if iv is not None and iv[1] <= BOUND_CAP:
+                            auto = 'copy of a sub-slice of at most %d bytes' % iv[1]
             elif kind == 'copy_into_vec':
                 ro = origins(body, [t.args[0].place[0]])
                 tk = [body.blocks[c].term for c in ro.calls if body.blocks[c].term.cmethod == 'take' and body.blocks[c].term.ctrait == 'std::io::Read']
@@ -97,6 +118,46 @@ def run(prog, rep, tier):
             if key in table:
                 e = table[key]
                 rep.ob('R15', True, key, '%s: %s' % (e['class'], e['reason']), body.loc(b.idx), sample='%s: %s' % (e['class'], e['reason']))
+                continue
+            # the same container reached through another expression / method / function (refactoring): classified by the container, not by the site
+            e = None
+            if kind in ('grow', 'alloc') and tgt:
+                if '.' in tgt:
+                    fname = tgt.rsplit('.', 1)[-1].split('#')[0]
+                    # same function as a reviewed site of that field (the expression changed), or a private helper whose only callers are
+                    # functions with a reviewed site of that field (the push was moved into the helper): how often it runs is unchanged
+                    fns = field_fns.get(fname, set())
+                    if body.nkey in fns:
+                        e = field_class.get(fname)
+                    elif fns and not body.impl_trait and body.vis != 'pub':
+                        callers = set()
+                        for b2 in prog.crates[body.pkg].bodies:
+                            for blk2 in b2.calls():
+                                cands, exact = resolve_call(prog, b2, blk2.term)
+                                if exact and len(cands) == 1 and cands[0].key == body.key:
+                                    callers.add(b2.nkey)
+                        if callers and callers <= fns:
+                            e = field_class.get(fname)
+                else:
+                    e = local_class.get((body.nkey, tgt))
+            elif kind == 'collect' and t.args and t.args[0].place is not None:
+                fo = origins(body, [t.args[0].place[0]])
+                names = {f[-1] for f in fo.fields if f}
+                for c2 in prog.closures_of(body):
+                    pass
+                hit = [field_class[n_] for n_ in names if n_ in field_class]
+                if hit and b.idx not in body.loop_blocks():
+                    e = hit[0]
+                # collect() of an adapter chain over a collection that already is in memory: as many elements as that collection, at most
+                chain = [body.blocks[c].term for c in fo.calls]
+                ITER_OK = {'iter', 'into_iter', 'iter_mut', 'keys', 'values', 'values_mut', 'map', 'filter', 'filter_map', 'cloned', 'copied', 'enumerate', 'rev', 'take',
+                           'skip', 'zip', 'by_ref', 'deref', 'as_slice', 'as_ref', 'branch', 'from_residual', 'map_while', 'take_while', 'skip_while', 'peekable', 'inspect'}
+                roots = [body.lty(l) for l in fo.params] + [body.lty(l) for l in fo.locals if not body.defs.get(l)]
+                inmem = [r for r in roots if any(x in r for x in ('HashMap<', 'Vec<', 'BTreeMap<', 'HashSet<', 'VecDeque<', '&[', '[u8;'))]
+                if e is None and chain and all(ct.cmethod in ITER_OK for ct in chain) and inmem and b.idx not in body.loop_blocks():
+                    e = {'class': 'derived', 'reason': 'collect() over a collection already held in memory (%s): bounded by its size' % inmem[0][:60]}
+            if e is not None:
+                rep.ob('R15', True, key, '%s (same container as a reviewed site): %s' % (e['class'], e['reason']), body.loc(b.idx))
                 continue
             rep.ob('R15', False, key, 'unclassified growth site on a streaming path (%s %s on %s): memory may grow with the number of bytes streamed' % (kind, cn, tgt or '?'), body.loc(b.idx))
     rep.floor('R15', n, 12, 'growth / allocation sites on the streaming paths')
